@@ -103,6 +103,13 @@ def enumerate_cases(tier):
                 yield {'kind': 'doc', 't': ['ann', ['tok', A], ['cat', [['t', 'a'], inner, ['t', 'c']]]], 'w': 20, 'style': ('@dark', 'default', 'murphy')[ki % 3], 'mode': 'true'}
                 deeper = ['ann', ['raw', k], ['cat', [['ann', ['tok', B], ['cat', [['t', 'b'], ['ann', 0, ['ann', ['tok', A], ['t', 'd']]], ['t', 'e']]]], ['hard'], ['t', 'm']]]]
                 yield {'kind': 'doc', 't': ['ann', ['tok', A], ['cat', [['t', 'a'], deeper, ['t', 'c']]]], 'w': 20, 'style': ('@dark', 'default', 'murphy')[ki % 3], 'mode': 'true'}
+    # lines that hold no text fragment at all (consecutive / final hardlines, an annotated empty text)
+    for t in (['cat', [['t', 'a'], ['hard'], ['hard'], ['t', 'b']]], ['cat', [['t', 'a'], ['hard']]],
+              ['nest', 2, ['cat', [['hard'], ['ann', ['tok', 'NUMBER_INT'], ['t', '']], ['hard'], ['ann', ['tok', 'COMMENT_SINGLE'], ['cat', [['t', 'c'], ['hard'], ['hard'], ['t', 'd']]]]]]]):
+        for sname in ('@dark', 'default'):
+            yield {'kind': 'doc', 't': t, 'w': 20, 'style': sname, 'mode': 'true'}
+    for sname in ('@dark', 'default'):
+        yield {'kind': 'value', 'v': ['dict', []], 'width': 1, 'indent': 4, 'style': sname, 'mode': 'true', 'end': '\n'}
     # nested annotations, D14 witness
     d14 = ['ann', ['tok', 'NUMBER_INT'], ['cat', [['t', 'a'], ['ann', 0, ['t', 'b']], ['t', 'c']]]]
     for sname in names:
